@@ -122,7 +122,14 @@ class LeafVisitStage(object):
     def __init__(self, ch):
         if LARGE_OK[0] and ch.draw(120, kind="large_leaf_set") == 119:
             # now and then a layer with thousands of leaves (hundreds per worker): size-dependent code paths
-            self.cfg = common.PyrConfig("generic", 5 + ch.draw(2, kind="large_depth"), None, set())
+            if ch.draw(2, kind="large_filtered") == 1:
+                # a filtered TOAST layer with an 'odd' number of leaves (a rejected subtree plus a sprinkling of leaves)
+                m = (3, 5, 11)[ch.draw(3, kind="large_reject_mod")]
+                rejects = {Pos(5, x, y) for x in range(32) for y in range(32) if (x * 7 + y * 13) % m == 0}
+                rejects.add(Pos(2, ch.draw(4, kind="large_reject_x"), ch.draw(4, kind="large_reject_y")))
+                self.cfg = common.PyrConfig("filtered", 5, None, rejects)
+            else:
+                self.cfg = common.PyrConfig("generic", 5 + ch.draw(2, kind="large_depth"), None, set())
             self.large = True
         else:
             self.cfg = common.draw_pyramid(ch, max_generic=3, max_toast=3, allow_deep=True)
@@ -216,7 +223,8 @@ class U8TransformStage(object):
         self.depth = ch.draw(3, kind="depth")
         self.present = []
         for p in generate_pos(self.depth):
-            if ch.draw(2, p0=0.3, kind="tile_present") == 0 or p.n == 0:
+            # (the root tile is as optional as any other: a layer that has not been cascaded yet has none)
+            if ch.draw(2, p0=0.3, kind="tile_present") == 0:
                 self.present.append(tuple(p))
 
     def describe(self):
